@@ -265,8 +265,8 @@ pub fn pool(dt: &DataType, o: PoolOpts) -> Option<Vec<ScalarValue>> {
             let n = *n as usize;
             Some([0u8, 1, 0x7f, 0xff, b'a'].iter().map(|b| ScalarValue::FixedSizeBinary(n as i32, Some((0..n).map(|i| b.wrapping_add(i as u8 * (*b != 0) as u8)).collect()))).collect())
         }
-        Date32 if o.small_time => Some([0, 1, -1, 18321, 18322, 18350, 365].iter().map(|d| ScalarValue::Date32(Some(*d))).collect()),
-        Date64 if o.small_time => Some([0i64, 1, -1, 18321, 18350].iter().map(|d| ScalarValue::Date64(Some(*d * 86_400_000))).collect()),
+        Date32 if o.small_time => Some([18321, 18322, 18320, 18350, 18262, 18686, 18291].iter().map(|d| ScalarValue::Date32(Some(*d))).collect()),
+        Date64 if o.small_time => Some([18321i64, 18322, 18320, 18350, 18291].iter().map(|d| ScalarValue::Date64(Some(*d * 86_400_000))).collect()),
         Date32 => Some([0, 1, -1, 18321, 18322, 19000, 59, 60, 365, -365, 11016, 2932896, -719528, 100000, -100000, i32::MAX, i32::MIN].iter().map(|d| ScalarValue::Date32(Some(*d))).collect()),
         Date64 => Some([0i64, 1, -1, 18321, 19000, 59, 365, -365, 2932896, -719528].iter().map(|d| ScalarValue::Date64(Some(*d * 86_400_000))).collect()),
         Time32(TimeUnit::Second) => Some([0, 1, 45296, 86399, 3600].iter().map(|t| ScalarValue::Time32Second(Some(*t))).collect()),
@@ -279,7 +279,7 @@ pub fn pool(dt: &DataType, o: PoolOpts) -> Option<Vec<ScalarValue>> {
             let mut vs: Vec<i64> = secs.iter().filter_map(|s| s.checked_mul(m)).collect();
             vs.extend([1582979696i64.wrapping_mul(m).wrapping_add(m / 2 + 123), i64::MAX, i64::MIN + 1, 999]);
             if o.small_time {
-                vs = [0i64, 3600, 86400, 172800, -86400, 1582979696, 1582979696 + 7200, 1583020800].iter().map(|s| s * m).collect();
+                vs = [1582979696i64, 1582979696 + 3600, 1582979696 + 7200, 1583020800, 1582934400, 1583107200, 1582848000, 1582979696 - 90000].iter().map(|s| s * m).collect();
             }
             Some(
                 vs.into_iter()
